@@ -60,3 +60,34 @@ package extrinsic
 //@   loop rangeindex#0
 //@     invariant range: rangeindex >= -1 && rangeindex < len(newItems) && itemMap != nil
 //@     invariant prefix: len(local_result) >= len(list) && len(local_result) <= len(list) + rangeindex + 1 && fresh(local_result) && forall(i, 0, len(list), local_result[i] == list[i])
+
+// C35, GP (10.7)/(10.8): verdicts are ordered by report hash, culprits and faults by Ed25519 key. `hgt` is the
+// lexicographic "greater than" on 32 octets written out (first differing octet decides), independent of bytes.Compare.
+//@ pred hgt(a, b) = exists(k, 0, 32, a[k] > b[k] && forall(j, 0, k, a[j] == b[j]))
+
+//@ func CompareWorkReportHash
+//@   props C35
+//@   ensures gt: (result == 1) == hgt(a, b)
+//@   ensures lt: (result == -1) == hgt(b, a)
+//@   ensures eq: (result == 0) == forall(k, 0, 32, a[k] == b[k])
+//@   ensures range: result == 1 || result == -1 || result == 0
+
+//@ func (*CulpritController).CheckSorted
+//@   props C35
+//@   requires recv: v != nil
+//@   ensures reject: exists(i, 1, len(v.Culprits), hgt(v.Culprits[i-1].Key, v.Culprits[i].Key)) ==> result != nil
+//@   ensures accept: forall(i, 1, len(v.Culprits), !hgt(v.Culprits[i-1].Key, v.Culprits[i].Key)) ==> result == nil
+//@   loop i#0
+//@     invariant range: i >= 1
+//@     invariant seen: forall(j, 1, i, j < len(v.Culprits) ==> !hgt(v.Culprits[j-1].Key, v.Culprits[j].Key))
+//@     invariant frame: frame_only()
+
+//@ func (*FaultController).CheckSorted
+//@   props C35
+//@   requires recv: f != nil
+//@   ensures reject: exists(i, 1, len(f.Faults), hgt(f.Faults[i-1].Key, f.Faults[i].Key)) ==> result != nil
+//@   ensures accept: forall(i, 1, len(f.Faults), !hgt(f.Faults[i-1].Key, f.Faults[i].Key)) ==> result == nil
+//@   loop i#0
+//@     invariant range: i >= 1
+//@     invariant seen: forall(j, 1, i, j < len(f.Faults) ==> !hgt(f.Faults[j-1].Key, f.Faults[j].Key))
+//@     invariant frame: frame_only()
